@@ -1,7 +1,8 @@
 (** * C16 property theorems — statements only; proofs live in C16/AllocatorProofs.v
     (and C02/TrackInitProofs.v for the shared capacity theorems). *)
 From Coq Require Import List Arith Bool.
-From Celer Require Import C16.Allocator C16.AllocatorProofs.
+From Celer Require Import C16.Allocator C16.AllocatorProofs C16.Examples.
+From Celer Require Import C02.TrackInit C02.InvA C02.InvB C02.TrackInitProofs.
 Import ListNotations.
 
 Theorem C16_alloc_fail_noop : forall a n,
@@ -41,3 +42,27 @@ Theorem C16_starved_interaction_noop :
   t_secs t' = t_secs t /\ t_dep t' = t_dep t.
 Proof. intros E D. exact (@starved_interaction_noop E D). Qed.
 Print Assumptions C16_starved_interaction_noop.
+
+(** shared with C02: the track-initialisation machine (coq/C02/TrackInit.v) *)
+Theorem C16_capacity_checked_first : forall cfg s,
+  (forall ps s', insert_primaries cfg s ps = Err s' ->
+     capacity cfg < length ps + c_init (cnt s) /\ s' = set_ph Failed s) /\
+  (forall ps, ph s = Ready -> forallb (fun p => p_ev p <? n_events cfg) ps = true ->
+     capacity cfg < length ps + c_init (cnt s) -> insert_primaries cfg s ps = Err (set_ph Failed s)) /\
+  (forall s', extend_from_secondaries cfg s = Err s' ->
+     slots s' = slots s /\ stack s' = stack s /\ parents s' = parents s /\ next_id s' = next_id s /\
+     capacity cfg < c_init (cnt s')) /\
+  (forall s', extend_from_secondaries cfg s = Ok s' -> c_init (cnt s') <= capacity cfg).
+Proof. exact capacity_checked_first. Qed.
+Print Assumptions C16_capacity_checked_first.
+
+(** shared with C02: the track-initialisation machine (coq/C02/TrackInit.v) *)
+Theorem C16_reset_then_run_ok : forall cfg ops s s1 ops' s2,
+  exec cfg (init_state cfg) ops = Some s ->
+  reset cfg s = Ok s1 ->
+  exec cfg s1 ops' = Some s2 ->
+  (stack s1 = [] /\ vac s1 = seq 0 (n_slots cfg) /\ cnt s1 = cnt (init_state cfg) /\ ph s1 = Ready /\
+   Forall (fun sl => sst sl = Inactive) (slots s1)) /\
+  InvA cfg s2 /\ InvB cfg s2.
+Proof. exact reset_then_run_ok. Qed.
+Print Assumptions C16_reset_then_run_ok.
